@@ -10,8 +10,9 @@
 (*   [k |-> "rep", a |-> item, m |-> m, n |-> n or -1]                          *)
 (*   [k |-> "group", alts |-> << <<item,..>>, .. >>]                           *)
 (* Desugar turns it into a plain CFG: a set of productions <<lhs, rhs>>    *)
-(* whose symbols are <<"nt", name>> or <<"t", byteset>>; the fresh          *)
-(* nonterminals are named by their position (path) in the surface grammar. *)
+(* whose symbols are <<"nt", name>> or <<"t", byteset>>; names are tuples:  *)
+(* <<rule name>> for the grammar's own rules, and the position (path)       *)
+(* <<rule name, alternative, item, ...>> for the fresh nonterminals.        *)
 (*                                                                         *)
 (* Semantics: (1) declaratively by least-fixpoint charts (Derives,         *)
 (* ViablePrefix), (2) executably by Earley item sets pushed byte by byte   *)
@@ -42,7 +43,7 @@ DAlts(name, alts, path) ==
     IN  {<<name, parts[j].syms>> : j \in DOMAIN alts} \cup UNION {parts[j].prods : j \in DOMAIN alts}
 
 DItem(it, path) ==
-    CASE it.k = "ref" -> [syms |-> <<NT(it.n)>>, prods |-> {}]
+    CASE it.k = "ref" -> [syms |-> <<NT(<<it.n>>)>>, prods |-> {}]
       [] it.k = "lit" -> [syms |-> [i \in DOMAIN it.b |-> T({it.b[i]})], prods |-> {}]
       [] it.k = "cls" -> [syms |-> <<T(SeqSet(it.s))>>, prods |-> {}]
       [] it.k = "group" -> [syms |-> <<NT(path)>>, prods |-> DAlts(path, it.alts, path)]
@@ -60,7 +61,7 @@ DItem(it, path) ==
             LET d == DItem(it.a, Append(path, 0))
                 m == it.m
                 n == it.n
-                C(i) == <<path, "c", i>>
+                C(i) == path \o <<-1, i>>
             IN  IF n < 0
                 THEN (* x{m,} = x^m x* *)
                      [syms |-> Flat([i \in 1..m |-> d.syms]) \o <<NT(path)>>,
@@ -72,7 +73,7 @@ DItem(it, path) ==
                                 \cup d.prods]
 
 Desugar(rules) ==
-    UNION {DAlts(rules[i].lhs, rules[i].alts, <<rules[i].lhs>>) : i \in DOMAIN rules}
+    UNION {DAlts(<<rules[i].lhs>>, rules[i].alts, <<rules[i].lhs>>) : i \in DOMAIN rules}
 
 Lhs(P) == {p[1] : p \in P}
 
@@ -86,13 +87,13 @@ NullableNTs(P) == NullFix(P, {})
 RECURSIVE ProdFix(_, _)
 ProdFix(P, N) ==
     LET N2 == N \cup {p[1] : p \in {q \in P : \A i \in DOMAIN q[2] :
-                                      q[2][i][1] = "t" /\ q[2][i][2] # {} \/ q[2][i][1] = "nt" /\ q[2][i][2] \in N}}
+                                      (q[2][i][1] = "t" /\ q[2][i][2] # {}) \/ (q[2][i][1] = "nt" /\ q[2][i][2] \in N)}}
     IN  IF N2 = N THEN N ELSE ProdFix(P, N2)
 ProductiveNTs(P) == ProdFix(P, {})
 
 RECURSIVE ReachFix(_, _)
 ReachFix(P, N) ==
-    LET N2 == N \cup {q[2][i][2] : q \in {p \in P : p[1] \in N}, i \in 1..0} \cup
+    LET N2 == N \cup
               UNION {{p[2][i][2] : i \in {j \in DOMAIN p[2] : p[2][j][1] = "nt"}} : p \in {q \in P : q[1] \in N}}
     IN  IF N2 = N THEN N ELSE ReachFix(P, N2)
 ReachableNTs(P, start) == ReachFix(P, {start})
@@ -107,31 +108,40 @@ Item(p, d, o) == <<p, d, o>>
 NextSym(it) == IF it[2] < Len(it[1][2]) THEN it[1][2][it[2] + 1] ELSE <<"end">>
 Advance(it) == <<it[1], it[2] + 1, it[3]>>
 
-RECURSIVE CloseFix(_, _, _, _, _)
-(* S: item set under construction at position k (0-based); chart: earlier sets *)
-CloseFix(P, nullable, chart, k, S) ==
-    LET pred == {Item(p, 0, k) : p \in {q \in P : \E it \in S : NextSym(it) = NT(q[1])}}
-        (* nullable nonterminals may be skipped at once (Aycock-Horspool) *)
-        skip == {Advance(it) : it \in {x \in S : NextSym(x)[1] = "nt" /\ NextSym(x)[2] \in nullable}}
-        done == {it \in S : NextSym(it) = <<"end">>}
-        comp == UNION {{Advance(w) : w \in {x \in (IF it[3] = k THEN S ELSE chart[it[3] + 1]) :
-                                              NextSym(x) = NT(it[1][1])}} : it \in done}
-        S2 == S \cup pred \cup skip \cup comp
-    IN  IF S2 = S THEN S ELSE CloseFix(P, nullable, chart, k, S2)
+(* G = [P |-> productions, nullable |-> nullable nonterminals, by |-> lhs -> its productions]   *)
+MkG(P) == [P |-> P, nullable |-> NullableNTs(P), by |-> [n \in Lhs(P) |-> {p \in P : p[1] = n}]]
 
-Chart0(P, start) ==
-    <<CloseFix(P, NullableNTs(P), <<>>, 0, {Item(p, 0, 0) : p \in {q \in P : q[1] = start}})>>
+ProdsOf(G, n) == IF n \in DOMAIN G.by THEN G.by[n] ELSE {}
+
+RECURSIVE Close(_, _, _, _, _)
+(* semi-naive closure: S = item set under construction at position k (0-based), new = the    *)
+(* items of S whose consequences have not been added yet; chart = the earlier sets.           *)
+(* A completion with origin k is an empty derivation and is covered by the nullable skip      *)
+(* (Aycock-Horspool), so completions only look into earlier, finished sets.                   *)
+Close(G, chart, k, S, new) ==
+    IF new = {} THEN S
+    ELSE
+    LET ntnext == {it \in new : NextSym(it)[1] = "nt"}
+        pred == UNION {{Item(p, 0, k) : p \in ProdsOf(G, NextSym(it)[2])} : it \in ntnext}
+        skip == {Advance(it) : it \in {x \in ntnext : NextSym(x)[2] \in G.nullable}}
+        done == {it \in new : NextSym(it) = <<"end">> /\ it[3] < k}
+        comp == UNION {{Advance(w) : w \in {x \in chart[it[3] + 1] : NextSym(x) = NT(it[1][1])}} : it \in done}
+        new2 == (pred \cup skip \cup comp) \ S
+    IN  Close(G, chart, k, S \cup new2, new2)
+
+Chart0(G, start) ==
+    LET S0 == {Item(p, 0, 0) : p \in ProdsOf(G, start)} IN <<Close(G, <<>>, 0, S0, S0)>>
 
 (* push one byte; an empty last set means: not a viable prefix *)
-PushByte(P, nullable, chart, b) ==
+PushByte(G, chart, b) ==
     LET k == Len(chart)
         scanned == {Advance(it) : it \in {x \in chart[k] : NextSym(x)[1] = "t" /\ b \in NextSym(x)[2]}}
-    IN  Append(chart, IF scanned = {} THEN {} ELSE CloseFix(P, nullable, chart, k, scanned))
+    IN  Append(chart, IF scanned = {} THEN {} ELSE Close(G, chart, k, scanned, scanned))
 
-RECURSIVE PushBytes(_, _, _, _)
-PushBytes(P, nullable, chart, w) ==
+RECURSIVE PushBytes(_, _, _)
+PushBytes(G, chart, w) ==
     IF w = <<>> \/ chart[Len(chart)] = {} THEN chart
-    ELSE PushBytes(P, nullable, PushByte(P, nullable, chart, Head(w)), Tail(w))
+    ELSE PushBytes(G, PushByte(G, chart, Head(w)), Tail(w))
 
 Dead(chart) == chart[Len(chart)] = {}
 AcceptingChart(chart, start) ==
@@ -152,9 +162,8 @@ DerivSeq(syms, w, i, j, F) ==
 
 RECURSIVE FullFix(_, _, _)
 FullFix(P, w, F) ==
-    LET F2 == F \cup {<<p[1], i, j>> : p \in P, i \in 0..Len(w), j \in 0..Len(w)} \cap
-                    {t \in {<<p[1], i, j>> : p \in P, i \in 0..Len(w), j \in 0..Len(w)} :
-                        t[2] <= t[3] /\ \E p \in P : p[1] = t[1] /\ DerivSeq(p[2], w, t[2], t[3], F)}
+    LET Cand == {<<p[1], i, j>> : p \in P, i \in 0..Len(w), j \in 0..Len(w)}
+        F2 == F \cup {t \in Cand : t[2] <= t[3] /\ \E p \in P : p[1] = t[1] /\ DerivSeq(p[2], w, t[2], t[3], F)}
     IN  IF F2 = F THEN F ELSE FullFix(P, w, F2)
 
 Derives(P, start, w) == <<start, 0, Len(w)>> \in FullFix(P, w, {})
